@@ -340,4 +340,107 @@ theorem c03_conforming_succeeds (c : Cfg) (uid sel first : Nat) (va vb vc vd sa 
     (c03_attach_conforming uid h1 h2) hj1 (c03_join_conforming uid first h1 h2 hfirst) hj2
     (c03_join_conforming uid (if first = 1003 then uid else 1003) h1 h2 hsecond) hinfo hlic
 
+/-! ### conforming servers with the optional fields of the core block and a channel list -/
+
+/-- core block of 8 bytes: the version only (clientRequestedProtocols and earlyCapabilityFlags are optional) -/
+def gccResponse8 (a b c d : UInt8) : Bytes :=
+  [0x00, 0x05, 0x00, 0x14, 0x7c, 0x00, 0x01, 0x2a,
+   0x14, 0x76, 0x0a, 0x01, 0x01, 0x00, 0x01, 0xc0, 0x00, 0x4d, 0x63, 0x44, 0x6e, 0x1c,
+   0x01, 0x0c, 0x08, 0x00, a, b, c, d,
+   0x02, 0x0c, 0x0c, 0x00, 0, 0, 0, 0, 0, 0, 0, 0,
+   0x03, 0x0c, 0x08, 0x00, 0xeb, 0x03, 0x00, 0x00]
+
+/-- core block of 16 bytes: version, clientRequestedProtocols, earlyCapabilityFlags -/
+def gccResponse16 (a b c d e f g h i j k l : UInt8) : Bytes :=
+  [0x00, 0x05, 0x00, 0x14, 0x7c, 0x00, 0x01, 0x32,
+   0x14, 0x76, 0x0a, 0x01, 0x01, 0x00, 0x01, 0xc0, 0x00, 0x4d, 0x63, 0x44, 0x6e, 0x24,
+   0x01, 0x0c, 0x10, 0x00, a, b, c, d, e, f, g, h, i, j, k, l,
+   0x02, 0x0c, 0x0c, 0x00, 0, 0, 0, 0, 0, 0, 0, 0,
+   0x03, 0x0c, 0x08, 0x00, 0xeb, 0x03, 0x00, 0x00]
+
+set_option maxHeartbeats 1000000 in
+theorem c03_gcc_conforming8 (a b c d : UInt8) :
+    readConferenceCreateResponse (gccResponse8 a b c d) = .ok ⟨[], versionOf (leNat [a, b, c, d])⟩ := by
+  simp [readConferenceCreateResponse, gccResponse8, rrO, Per.readU8, Per.readOid, Per.readLength, Per.readInteger16, Per.readInteger, Per.readU16be, Per.readOctetStream, Per.readOctetStream.go,
+    rdExact, RR.bind, Outcome.bind, leNat, decInt, t124Oid, h221ScKey, readBlocks, read, readFields, readStep, blockHeaderTmpl, serverCoreTmpl, serverSecurityTmpl, serverNetTmpl, u16le, u32le,
+    castComp, castU16, castU32, castTrame, field, lookupField, unwrapVisit, readAll, options, evalOpt, addSkip, addSize, lookupSize, intVal, write, encInt, leBytes, readArrayLoop, versionOf]
+  try rfl
+
+set_option maxHeartbeats 1000000 in
+theorem c03_gcc_conforming16 (a b c d e f g h i j k l : UInt8) :
+    readConferenceCreateResponse (gccResponse16 a b c d e f g h i j k l) = .ok ⟨[], versionOf (leNat [a, b, c, d])⟩ := by
+  simp [readConferenceCreateResponse, gccResponse16, rrO, Per.readU8, Per.readOid, Per.readLength, Per.readInteger16, Per.readInteger, Per.readU16be, Per.readOctetStream, Per.readOctetStream.go,
+    rdExact, RR.bind, Outcome.bind, leNat, decInt, t124Oid, h221ScKey, readBlocks, read, readFields, readStep, blockHeaderTmpl, serverCoreTmpl, serverSecurityTmpl, serverNetTmpl, u16le, u32le,
+    castComp, castU16, castU32, castTrame, field, lookupField, unwrapVisit, readAll, options, evalOpt, addSkip, addSize, lookupSize, intVal, write, encInt, leBytes, readArrayLoop, versionOf]
+  try rfl
+
+/-- the replies of a conforming server around any conference-create response -/
+def conformingRepliesWith (gcc : Bytes) (uid sel first : Nat) (newLicence : Bool) : Replies :=
+  let second := if first = 1003 then uid else 1003
+  ⟨sel, .ok gcc, [0x2e, 0x00] ++ be16 (uid - 1001), first,
+   [0x3e, 0x00] ++ be16 (uid - 1001) ++ be16 first ++ be16 first,
+   [0x3e, 0x00] ++ be16 (uid - 1001) ++ be16 second ++ be16 second,
+   sdin (if newLicence then licenceNew else licenceErrorValid)⟩
+
+/-- acceptance of a conforming server, for any conference-create response the GCC reader accepts -/
+theorem c03_conforming_succeeds_with (c : Cfg) (uid sel first : Nat) (gcc : Bytes) (sd : ServerData) (nl : Bool)
+    (hg : readConferenceCreateResponse gcc = .ok sd)
+    (h1 : 1001 ≤ uid) (h2 : uid ≤ 65535) (hf : first = 1003 ∨ first = uid)
+    (hs : (utf16le c.domain).length + (utf16le c.user).length + (utf16le c.password).length ≤ 60000) :
+    (connectTrace c (conformingRepliesWith gcc uid sel first nl)).2 = .ok (uid, sd) := by
+  obtain ⟨ci, hci⟩ := stage1_ok c (conformingRepliesWith gcc uid sel first nl)
+  have hsecond : (if first = 1003 then uid else 1003) ≤ 65535 := by split <;> omega
+  have hfirst : first ≤ 65535 := by rcases hf with h | h <;> omega
+  obtain ⟨j1, hj1⟩ := joinFrame_ok uid first h1
+  obtain ⟨j2, hj2⟩ := joinFrame_ok uid (if first = 1003 then uid else 1003) h1
+  obtain ⟨info, hinfo⟩ := infoFrame_ok c uid sd.version h1 hs
+  have hlic : secRead uid (sdin (if nl then licenceNew else licenceErrorValid)) = .ok () := by
+    cases nl
+    · exact (c03_licence_conforming uid).1
+    · exact (c03_licence_conforming uid).2
+  exact connectTrace_ok c _ uid _ ci j1 j2 info true true hci
+    (by simp only [conformingRepliesWith, Outcome.bind_ok, hg])
+    (c03_attach_conforming uid h1 h2) hj1 (c03_join_conforming uid first h1 h2 hfirst) hj2
+    (c03_join_conforming uid (if first = 1003 then uid else 1003) h1 h2 hsecond) hinfo hlic
+
+/-- **A conforming server whose core block omits the optional fields** (8 bytes: the version only) is accepted -/
+theorem c03_conforming_succeeds_core8 (c : Cfg) (uid sel first : Nat) (va vb vc vd : UInt8) (nl : Bool)
+    (h1 : 1001 ≤ uid) (h2 : uid ≤ 65535) (hf : first = 1003 ∨ first = uid)
+    (hs : (utf16le c.domain).length + (utf16le c.user).length + (utf16le c.password).length ≤ 60000) :
+    (connectTrace c (conformingRepliesWith (gccResponse8 va vb vc vd) uid sel first nl)).2 =
+      .ok (uid, ⟨[], versionOf (leNat [va, vb, vc, vd])⟩) :=
+  c03_conforming_succeeds_with c uid sel first _ _ nl (c03_gcc_conforming8 va vb vc vd) h1 h2 hf hs
+
+/-- **… and one that sends all of them** (16 bytes: version, selected protocol, earlyCapabilityFlags of any value) -/
+theorem c03_conforming_succeeds_core16 (c : Cfg) (uid sel first : Nat) (va vb vc vd sa sb sc sd ea eb ec ed : UInt8) (nl : Bool)
+    (h1 : 1001 ≤ uid) (h2 : uid ≤ 65535) (hf : first = 1003 ∨ first = uid)
+    (hs : (utf16le c.domain).length + (utf16le c.user).length + (utf16le c.password).length ≤ 60000) :
+    (connectTrace c (conformingRepliesWith (gccResponse16 va vb vc vd sa sb sc sd ea eb ec ed) uid sel first nl)).2 =
+      .ok (uid, ⟨[], versionOf (leNat [va, vb, vc, vd])⟩) :=
+  c03_conforming_succeeds_with c uid sel first _ _ nl (c03_gcc_conforming16 va vb vc vd sa sb sc sd ea eb ec ed) h1 h2 hf hs
+
+/-- a channel list in SC_NET: one static channel (id x) and the two padding bytes that follow an odd count -/
+def gccResponseNet1 (a b c d e f g h x y : UInt8) : Bytes :=
+  [0x00, 0x05, 0x00, 0x14, 0x7c, 0x00, 0x01, 0x32,
+   0x14, 0x76, 0x0a, 0x01, 0x01, 0x00, 0x01, 0xc0, 0x00, 0x4d, 0x63, 0x44, 0x6e, 0x24,
+   0x01, 0x0c, 0x0c, 0x00, a, b, c, d, e, f, g, h,
+   0x02, 0x0c, 0x0c, 0x00, 0, 0, 0, 0, 0, 0, 0, 0,
+   0x03, 0x0c, 0x0c, 0x00, 0xeb, 0x03, 0x01, 0x00, x, y, 0, 0]
+
+set_option maxHeartbeats 1000000 in
+theorem c03_gcc_conforming_net1 (a b c d e f g h x y : UInt8) :
+    readConferenceCreateResponse (gccResponseNet1 a b c d e f g h x y) = .ok ⟨[leNat [x, y]], versionOf (leNat [a, b, c, d])⟩ := by
+  simp [readConferenceCreateResponse, gccResponseNet1, rrO, Per.readU8, Per.readOid, Per.readLength, Per.readInteger16, Per.readInteger, Per.readU16be, Per.readOctetStream, Per.readOctetStream.go,
+    rdExact, RR.bind, Outcome.bind, leNat, decInt, t124Oid, h221ScKey, readBlocks, read, readFields, readStep, blockHeaderTmpl, serverCoreTmpl, serverSecurityTmpl, serverNetTmpl, u16le, u32le,
+    castComp, castU16, castU32, castTrame, field, lookupField, unwrapVisit, readAll, options, evalOpt, addSkip, addSize, lookupSize, intVal, write, encInt, leBytes, readArrayLoop, versionOf]
+  try rfl
+
+/-- **… and one that announces a static channel** (SC_NET with one channel id and its padding) -/
+theorem c03_conforming_succeeds_net1 (c : Cfg) (uid sel first : Nat) (va vb vc vd sa sb sc sd x y : UInt8) (nl : Bool)
+    (h1 : 1001 ≤ uid) (h2 : uid ≤ 65535) (hf : first = 1003 ∨ first = uid)
+    (hs : (utf16le c.domain).length + (utf16le c.user).length + (utf16le c.password).length ≤ 60000) :
+    (connectTrace c (conformingRepliesWith (gccResponseNet1 va vb vc vd sa sb sc sd x y) uid sel first nl)).2 =
+      .ok (uid, ⟨[leNat [x, y]], versionOf (leNat [va, vb, vc, vd])⟩) :=
+  c03_conforming_succeeds_with c uid sel first _ _ nl (c03_gcc_conforming_net1 va vb vc vd sa sb sc sd x y) h1 h2 hf hs
+
 end Rdp.Session
